@@ -37,7 +37,17 @@ var (
 	c19recv    []interface{}
 )
 
-func c19enter(a ...interface{}) { c19entered = true; c19recv = a }
+// c19recOff: set while several goroutines call bridged functions at the same time (history
+// stream, c19_history.go); the recorder is a pair of globals and is not used then
+var c19recOff bool
+
+func c19enter(a ...interface{}) {
+	if c19recOff {
+		return
+	}
+	c19entered = true
+	c19recv = a
+}
 
 const c19errText = "c19-callee-error-7f3a91"
 
@@ -267,6 +277,7 @@ type c19fn struct {
 	ad   *stdlib.ECALFunctionAdapter
 	nin  int
 	ecal string // name under which it is registered in the ECAL stdlib package c19 (no '_' in ECAL identifiers)
+	hist bool   // used by the history stream only (c19_history.go), not by the exhaustive sweep
 }
 
 func c19echo[T any]() interface{} { return func(a T) T { c19enter(a); return a } }
@@ -331,6 +342,7 @@ func c19funcs() []*c19fn {
 		{Name: "panic_err", F: func(a ...interface{}) { c19enter(a); panic(errors.New("an error value as panic value")) }, Beh: "BPanic"},
 		{Name: "panic_idx", F: func(a []interface{}) interface{} { c19enter(a); return a[5] }, Beh: "BPanic"},
 	}
+	fs = append(fs, c19histFuncs()...)
 	for i, f := range fs {
 		f.ecal = fmt.Sprintf("f%d", i)
 		t := reflect.TypeOf(f.F)
@@ -372,6 +384,15 @@ func c19lowerFirst(s string) string {
 type c19case struct {
 	Fn   string   `json:"fn"`   // synthetic function name or "stdlib:math.floor"
 	Args []string `json:"args"` // "p<i>" pool value i, "b<hex>" float64 with these bits
+}
+
+// c19hcase: a case of the history stream (c19_history.go): calls made one after the other by
+// one goroutine (Fn "history") / by several goroutines at the same time, one list of calls per
+// goroutine (Fn "history-par")
+type c19hcase struct {
+	Fn  string      `json:"fn"`
+	Seq []c19step   `json:"seq,omitempty"`
+	Par [][]c19step `json:"par,omitempty"`
 }
 
 type c19obs struct {
@@ -471,6 +492,7 @@ func c19one(c *Ctx, f *c19fn, desc c19case, emit bool, viaEcal bool) {
 		}
 	}
 	key := desc.Fn + "(" + strings.Join(desc.Args, ",") + ")"
+	argCopy := c19snap(args)
 	r := c19guarded(func() (interface{}, error) {
 		return f.ad.Run("c19", scope.NewScope(scope.GlobalScope), make(map[string]interface{}), 1, args)
 	})
@@ -480,12 +502,18 @@ func c19one(c *Ctx, f *c19fn, desc c19case, emit bool, viaEcal bool) {
 		c.Count(key, true, desc)
 		return
 	}
+	// history oracle (c19_history.go): the argument list handed in is the caller's; results
+	// returned by earlier calls of the sweep are still what they were
+	c19sweepAfter(c, c19step{desc.Fn, desc.Args}, args, argCopy, r, o)
 	c.Dist[[]string{"run_ok", "run_callee_error", "run_other_error"}[o.cls]]++
 	if viaEcal && haveLits {
 		src := "func c19f() {\n return 1\n}\nc19." + f.ecal + "(" + strings.Join(lits, ", ") + ")"
 		r2 := c19guarded(func() (interface{}, error) { return evalProgram("c19", src, nil, nil) })
 		o2 := c19classify(r2)
 		c.Dist["via_ecal"]++
+		if o2.bad == "" {
+			c19sweepAfter(c, c19step{desc.Fn, desc.Args}, nil, nil, r2, o2)
+		}
 		switch {
 		case o2.bad != "":
 			c.Violate(strings.SplitN(o2.bad, ":", 2)[0], "calling the bridged function from ECAL did not return: "+o2.bad+" program: "+src, desc)
@@ -604,7 +632,7 @@ func c19hasGoNumber(v interface{}) bool {
 
 // ---------------------------------------------------------------- driver
 
-func c19header(fs []*c19fn) string {
+func c19header(fs []*c19fn, mathSig map[string]string) string {
 	var sb strings.Builder
 	sb.WriteString("From Coq Require Import ZArith NArith List Bool Floats.SpecFloat.\nImport ListNotations.\n")
 	sb.WriteString("From Ecal Require Import Common.Outcome Model.Adapter Run.RunC19.\n")
@@ -613,6 +641,15 @@ func c19header(fs []*c19fn) string {
 	}
 	for _, f := range fs {
 		fmt.Fprintf(&sb, "Definition s_%s : sig := %s.\nDefinition b_%s : beh := %s.\n", f.Name, f.sig, f.Name, f.Beh)
+	}
+	// the signatures of the generated stdlib, by name (used by the history stream)
+	names := make([]string, 0, len(mathSig))
+	for n := range mathSig {
+		names = append(names, n)
+	}
+	sort.Strings(names)
+	for _, n := range names {
+		fmt.Fprintf(&sb, "Definition %s : sig := %s.\n", c19mathSigName(n), mathSig[n])
 	}
 	return sb.String()
 }
@@ -667,14 +704,13 @@ func runC19(c *Ctx) error {
 			return err
 		}
 	}
-	c.BeginCases(c19header(fs), "case", c.Pick(1700, 2500))
-
 	mathSig := map[string]string{}
 	for i := 0; i+1 < len(c19math); i += 2 {
 		if s, ok := c19sig(reflect.TypeOf(c19math[i+1])); ok {
 			mathSig["math."+c19lowerFirst(c19math[i].(string))] = s
 		}
 	}
+	c.BeginCases(c19header(fs, mathSig), "case", c.Pick(1700, 2500))
 	mathNin := map[string]int{}
 	for i := 0; i+1 < len(c19math); i += 2 {
 		mathNin["math."+c19lowerFirst(c19math[i].(string))] = reflect.TypeOf(c19math[i+1]).NumIn()
@@ -684,6 +720,14 @@ func runC19(c *Ctx) error {
 		var d c19case
 		if err := c.LoadReplay(&d); err != nil {
 			return err
+		}
+		if d.Fn == "history" || d.Fn == "history-par" {
+			var hd c19hcase
+			if err := c.LoadReplay(&hd); err != nil {
+				return err
+			}
+			c19historyReplay(c, c19targets(fs, mathSig), hd)
+			return nil
 		}
 		if strings.HasPrefix(d.Fn, "stdlib:") {
 			name := strings.TrimPrefix(d.Fn, "stdlib:")
@@ -742,6 +786,9 @@ func runC19(c *Ctx) error {
 		if c.Enough() {
 			c.Notes = append(c.Notes, "sweep stopped early after repeated violations")
 			break
+		}
+		if f.hist {
+			continue
 		}
 		for L := 0; L <= maxLen; L++ {
 			var rest [][]int
@@ -826,6 +873,10 @@ func runC19(c *Ctx) error {
 		}
 	}
 	c.Extra["stdlib_functions"] = nstd
+
+	// 5. histories: a value returned to ECAL is not changed by later bridge calls
+	c19sweepFinal(c)
+	c19history(c, c19targets(fs, mathSig))
 	c.Exhaustive = false
 	return nil
 }
